@@ -240,7 +240,7 @@ def cases(draw, all_families: bool, known_keys):
 def plan(tier: str) -> list[dict]:
     if tier == "quick":
         return [{"examples": 6, "all_families": False, "cost": 6} for _ in range(6)]
-    return [{"examples": 25, "all_families": True, "cost": 12} for _ in range(16)]
+    return [{"examples": 90, "all_families": True, "cost": 12} for _ in range(16)]
 
 
 def run_shard(spec: dict, ctx: Ctx) -> None:
